@@ -128,6 +128,9 @@ class Plain:
     pass
 
 plain_instance = Plain()
+
+def boom():
+    return 1 / 0
 '''
 
 # (label, python expression evaluated in the student namespace)
@@ -171,6 +174,7 @@ BINARY = [
 UNARY = [
     ('neg', operator.neg), ('pos', operator.pos), ('invert', operator.invert), ('abs', abs),
     ('bool', bool), ('not', operator.not_), ('hash', hash), ('len', len), ('pedal-len', 'PEDAL_LEN'),
+    ('pedal-len-of-unwrapped', 'PEDAL_LEN_RAW'),
     ('iter-list', lambda v: list(iter(v))), ('reversed-list', lambda v: list(reversed(v))),
     ('for-loop-sum', lambda v: [e for e in v]), ('sorted', lambda v: sorted(v)),
     ('str', str), ('repr', repr), ('format-empty', lambda v: format(v, '')), ('fstring', lambda v: f'{v}'),
@@ -242,11 +246,35 @@ class Harness:
         if sbx.get_exception() is not None:
             raise RuntimeError('student file failed: %r' % sbx.get_exception())
         self.cache = {}
+        self.made = 0
+        self.ref_ns = {'__name__': '__main__'}
+        exec(compile(STUDENT, 'answer.py', 'exec'), self.ref_ns)
+        self.mismatch = None
 
     def proxy(self, expr, how):
         """fresh proxy for the expression, via evaluate or call('identity', <value>)"""
         if (expr, how) in self.cache:
             return self.cache[(expr, how)]
+        self.made += 1
+        if self.made % 3 == 1:
+            # history: the previous execution in this sandbox failed (a proxy must still carry the new value)
+            self.sbx.call('boom')
+        elif self.made % 3 == 2:
+            self.sbx.call('identity', 'previous result')
+        p = self._make(expr, how)
+        # the wrapped object must be the value the expression has in plain CPython
+        try:
+            want = eval(expr, self.ref_ns)
+            got = unwrap(p)
+            if not is_proxy(p) or type(got).__name__ != type(want).__name__ or _noaddr(repr(got)) != _noaddr(repr(want)):
+                self.mismatch = (expr, how, ['after-failed-call', 'after-ok-call', 'first'][self.made % 3 - 1],
+                                 repr(want)[:100], repr(got)[:100])
+        except Exception as e:
+            self.mismatch = (expr, how, 'reference', repr(e), '')
+        self.cache[(expr, how)] = p
+        return p
+
+    def _make(self, expr, how):
         if how == 'evaluate':
             p = self.sbx.evaluate(expr)
         else:
@@ -284,6 +312,17 @@ def compare(ctx, key_base, case, real, prox):
                           'real value raises %r, proxy returns %r' % (rv, _short(u)))
 
 
+def _noaddr(text):
+    import re
+    return re.sub(r'0x[0-9a-fA-F]+', '0x', text)
+
+
+def _too_big(a, b):
+    def mag(x):
+        return abs(x) if isinstance(x, int) and not isinstance(x, bool) else 0
+    return max(mag(a), mag(b)) > 10 ** 6
+
+
 def _short(v):
     try:
         r = repr(v)
@@ -311,12 +350,19 @@ def cells(ctx, values, shard, nshards, only=None):
                 continue
             how = 'evaluate' if (vi + oi) % 2 else 'call'
             p = h.proxy(vexpr, how)
+            if h.mismatch:
+                ctx.violation('C16|proxy-wraps-wrong-value|%s|%s' % (h.mismatch[1], h.mismatch[2]),
+                              {'kind': 'U', 'op': oname, 'value': vexpr, 'how': how}, h.mismatch)
+                h.mismatch = None
             if not is_proxy(p):
                 ctx.inconclusive('call()/evaluate() did not return a proxy for %s' % vexpr)
                 return
             real_v = unwrap(p)
             if ofn == 'PEDAL_LEN':
                 f_real, f_prox = len, result_mod.len
+            elif ofn == 'PEDAL_LEN_RAW':
+                # the replacement len() must also behave as len() for an instructor's plain values
+                f_real, f_prox = len, (lambda v: result_mod.len(unwrap(v)))
             elif ofn == 'ISINSTANCE_OWN':
                 f_real = f_prox = (lambda v, T=type(real_v): isinstance(v, T))
             elif ofn == 'ISINSTANCE_OTHER':
@@ -328,6 +374,8 @@ def cells(ctx, values, shard, nshards, only=None):
             prox = run_op(f_prox, p)
             case = {'kind': 'U', 'op': oname, 'value': vexpr, 'how': how}
             key = 'C16|%s|P|%s' % (oname, vt)
+            if vt == 'Card':
+                key += '|operand-has-attribute-named-value'
             ctx.case('U:%s:%s' % (oname, vexpr))
             ctx.seen('operations', oname)
             ctx.count('cells_real_ok' if real[0] == 'ok' else 'cells_real_fails')
@@ -342,6 +390,10 @@ def cells(ctx, values, shard, nshards, only=None):
                 how = 'evaluate' if (li + ri + oi) % 2 else 'call'
                 pl = h.proxy(lexpr, how)
                 pr = h.proxy(rexpr, how)
+                if h.mismatch:
+                    ctx.violation('C16|proxy-wraps-wrong-value|%s|%s' % (h.mismatch[1], h.mismatch[2]),
+                                  {'kind': 'B', 'op': oname, 'placement': 'L', 'left': lexpr, 'right': rexpr, 'how': how}, h.mismatch)
+                    h.mismatch = None
                 lv, rv = unwrap(pl), unwrap(pr)
                 if oname == 'isinstance-of-type':
                     fn = lambda a, b: isinstance(a, type(b))
@@ -350,11 +402,22 @@ def cells(ctx, values, shard, nshards, only=None):
                     if rt not in ('int', 'NoneType', 'bool'):
                         continue
                     fn = ofn
-                    placements = [('L', pl, rv), ('R', lv, pr), ('B', pl, pr)]
+                    # the statement lists round() of the proxied value; a proxied ndigits is not claimed
+                    placements = [('L', pl, rv)]
+                    ctx.count('cells_outside_statement_skipped', 2)
+                elif oname == 'in':
+                    fn = ofn
+                    # "membership in the proxied container": the container (right operand) is the proxy
+                    placements = [('R', lv, pr), ('B', pl, pr)]
+                    ctx.count('cells_outside_statement_skipped', 1)
                 else:
                     fn = ofn
                     placements = [('L', pl, rv), ('R', lv, pr), ('B', pl, pr)]
                 if only and (only[0] != 'B' or only[1] != oname or only[3] != lexpr or only[4] != rexpr):
+                    continue
+                if oname in ('pow', 'lshift', 'mul') and _too_big(lv, rv):
+                    # results with millions of digits: resource exhaustion is outside the statement
+                    ctx.count('cells_skipped_huge_result')
                     continue
                 real = run_op(fn, lv, rv)
                 if real[0] == 'err' and isinstance(real[1], (OverflowError, MemoryError)):
@@ -367,6 +430,8 @@ def cells(ctx, values, shard, nshards, only=None):
                     prox = run_op(fn, a, b)
                     case = {'kind': 'B', 'op': oname, 'placement': plc, 'left': lexpr, 'right': rexpr, 'how': how}
                     key = 'C16|%s|%s|%s,%s' % (oname, plc, lt, rt)
+                    if 'Card' in (lt, rt):
+                        key += '|operand-has-attribute-named-value'
                     ctx.case('B:%s:%s:%s:%s' % (oname, plc, lexpr, rexpr))
                     ctx.seen('operations', oname)
                     ctx.seen('placements', plc)
